@@ -10,7 +10,9 @@ from fractions import Fraction
 from harness.util import rel_close
 
 RULE = ("random definition trees (depth<=8, arbitrary branching, dotted names, indentation width 1-7 chosen per "
-        "parent, de-indents over several levels, blank/comment lines, every literal form: bool, int, float in "
+        "parent, de-indents over several levels, blank/comment lines; in ~45% of the trees 1-3 nodes are written again "
+        "(typed with their keyword incl. every width/sign suffix, or untyped) and must stay one parameter with the "
+        "type of the first occurrence; every literal form: bool, int, float in "
         "decimal/scientific notation, bare/quoted/escaped strings, none, inline/quoted/block arrays, block strings, "
         "tables) rendered to DIP text; plus flat line sequences with arbitrary indentation numbers; plus a malformed "
         "stream (impl vs model only). non-trivial = depth>=2 or a de-indent by >=2 levels or an array/block/table; "
@@ -354,11 +356,11 @@ def gen_dims(rng, shape):
 def gen_type(rng, ty):
     """(keyword text, precision, unsigned)"""
     if ty == "int":
-        u = rng.random() < 0.25
-        sfx = rng.choice(["", "", "16", "32", "64"])
+        u = rng.random() < 0.4
+        sfx = rng.choice(["", "16", "32", "64"])
         return ("u" if u else "") + "int" + sfx, int(sfx or 32), u
     if ty == "float":
-        sfx = rng.choice(["", "", "32", "64", "128"])
+        sfx = rng.choice(["", "32", "64", "128"])
         return "float" + sfx, int(sfx or 64), None
     return ty, None, None
 
@@ -399,11 +401,12 @@ def gen_definition(rng, name, allow_block=True, allow_table=True, ty=None, unit_
     """Returns (head text after name, tail lines, payload, expect list [(relname, ty, prec, uns, unit, val)])."""
     r = rng.random()
     if allow_table and r < 0.07:
-        return gen_table(rng, name)
+        return gen_table(rng, name) + (None,)
     ty = ty or rng.choice(["bool", "int", "float", "str"])
     kw, prec, uns = gen_type(rng, ty)
     unit, _ = pick_unit(rng, ty, unit_p)
     tail = []
+    shape, dtext = None, ""
     if r < 0.3:                                    # array
         shape = rng.choice([[0], [1], [2], [3], [4], [2, 2], [2, 3], [1, 1], [3, 1, 2]])
         dtext, dj = gen_dims(rng, shape)
@@ -455,7 +458,8 @@ def gen_definition(rng, name, allow_block=True, allow_table=True, ty=None, unit_
         if unit:
             head += sp(rng) + unit
         head += comment(rng)
-    return head, tail, payload, [("", ty, prec, uns, unit, val)]
+    meta = {"ty": ty, "kw": kw, "prec": prec, "uns": uns, "shape": shape, "dtext": dtext, "dims": payload[4], "unit": unit}
+    return head, tail, payload, [("", ty, prec, uns, unit, val)], meta
 
 
 def gen_table(rng, name):
@@ -507,6 +511,7 @@ def gen_tree(rng, max_depth=8, size=None):
     """Returns list of Line in text order with tree depth, and the expected parameter list."""
     size = size or rng.randint(1, 18)
     lines, expected, used = [], [], set()
+    rewritable = []       # (index in expected, path, meta) of plain definitions
     budget = [size]
 
     def fresh_name(prefix):
@@ -529,7 +534,7 @@ def gen_tree(rng, max_depth=8, size=None):
             lines.append(ln)
             has_children = True
         else:
-            head, tail, payload, exp = gen_definition(rng, nm)
+            head, tail, payload, exp, meta = gen_definition(rng, nm)
             # avoid path collisions of table columns
             rels = [path + ("." + e[0] if e[0] else "") for e in exp]
             if any(r in used for r in rels):
@@ -541,6 +546,8 @@ def gen_tree(rng, max_depth=8, size=None):
             lines.append(ln)
             for e, r in zip(exp, rels):
                 expected.append([r, e[1], e[2], e[3], e[4], e[5]])
+            if meta is not None:
+                rewritable.append((len(expected) - 1, path, meta))
             has_children = payload[0] != "table" and rng.random() < 0.45
         if has_children and depth < max_depth:
             k = rng.choice([1, 1, 2, 2, 3, 4])
@@ -551,6 +558,30 @@ def gen_tree(rng, max_depth=8, size=None):
 
     while budget[0] > 0:
         node(0, [], None)
+    # the same node written again (dotted spelling from the root): typed with its keyword (every width/sign
+    # suffix) or untyped; the single resulting parameter keeps place, type, width/sign, unit and takes the new value
+    if rewritable and rng.random() < 0.45:
+        for _ in range(rng.choice([1, 1, 2, 3])):
+            idx, path, meta = rng.choice(rewritable)
+            ty = meta["ty"]
+            if meta["shape"] is not None:
+                lit, val = gen_array(rng, ty, meta["shape"], False) if rng.random() > 0.08 else ("none", None)
+                if ty == "str" and any(c in lit for c in " #"):
+                    lit = "'" + lit.replace("'", "\\'") + "'"
+            else:
+                lit, val = gen_scalar(rng, ty)
+            typed = rng.random() < 0.5
+            unit = meta["unit"] if (meta["unit"] and val is not None and rng.random() < 0.6) else None
+            if typed:
+                head = sp(rng) + meta["kw"] + meta["dtext"] + rng.choice([" = ", "=", " =  "]) + lit
+            else:
+                head = rng.choice([" = ", " =", "  =  "]) + lit
+            if unit:
+                head += sp(rng) + unit
+            head += comment(rng)
+            payload = ["assign", ty if typed else None, unit, to_json_val(val), meta["prec"], meta["uns"], meta["dims"]]
+            lines.append(Line(0, path, path + head, [], payload, kind="rewrite"))
+            expected[idx] = expected[idx][:5] + [val]
     return lines, expected
 
 
@@ -751,6 +782,10 @@ def tree_case(ctx, rng):
         ctx.count("tree.multi-level-deindent")
     for l in lines:
         ctx.count("line." + l.kind)
+        if l.kind == "rewrite":
+            ctx.count("rewrite." + ("typed" if l.payload[1] else "untyped"))
+            if l.payload[5] is not None or l.payload[4] not in (None, 32, 64):
+                ctx.count("rewrite.nondefault-width-or-sign")
     return run_case(ctx, "tree", text, lj, expected, units_in(lj) | {"m"}, nontriv)
 
 
@@ -766,7 +801,7 @@ def flat_case(ctx, rng):
             out.append(" " * ind + nm + comment(rng, 0.3, tight_ok=False))
             lj.append([ind, nm, ["group"]])
         else:
-            head, tail, payload, exp = gen_definition(rng, nm, allow_block=False, allow_table=False)
+            head, tail, payload, exp, _ = gen_definition(rng, nm, allow_block=False, allow_table=False)
             out.append(" " * ind + nm + head)
             lj.append([ind, nm, payload])
         if rng.random() < 0.2:
